@@ -172,6 +172,8 @@ def classify(line, out):
 
 def run(ctx):
     ok, changed, log = core.generate("c20", "C20Clean")
+    ok2, changed2, log2 = core.generate("c20locks", "C20Locks")
+    ok, log = ok and ok2, log + log2
     proof = core.coq_properties("C20")
     if not ok:
         proof["ok"] = False
